@@ -70,8 +70,8 @@ def obligations(tier):
         CH("reference_text_malformed", H, "ref_text", t, mode="E1s", functions=FP[12:13] + ["stix2.properties._validate_id", "stix2.utils.get_type_from_id"],
            bounds="4 type names x 7 configurations x 9 insertions between type and UUID (extra '--' segments, spaces) x 5 tails x both versions x allow_custom: never accepted"),
     ] + [
-        CH("constructor_engine_p%02d" % q, H, "engine", t, functions=FE, stubs=[FMT], env={"VERIF_PART": str(q)},
-           bounds="synthetic class, partition embedded-kind %d / tags-kind %d: presence/None/[] per property, unbounded int, str <= 2, custom property, "
+        CH("constructor_engine_p%02d" % q, H, "engine", t * 2, functions=FE, stubs=[FMT], env={"VERIF_PART": str(q)},
+           bounds="synthetic class, partition embedded-kind %d / tags-kind %d: presence/None/[] per property, unbounded int, str <= 2, custom property absent or holding 1 / '' / 0 / None / [], "
                   "embedded object with/without custom, fixed value, allow_custom" % (q // 4, q % 4)) for q in range(16)
     ] + [
         CH("tlp_instances", H, "tlp", t, mode="E1s", functions=FC[13:], bounds="10 colour spellings (4 terms, unknown, case/space variants, empty) x 5 ids x 2 created values x 2 versions"),
